@@ -7,6 +7,7 @@
 #![allow(dead_code, dangerous_implicit_autorefs, unused_unsafe, static_mut_refs)]
 mod abortchild;
 mod cmps;
+mod ctors;
 mod layout;
 mod mech;
 mod ptrs;
@@ -44,6 +45,9 @@ fn main() {
         std::panic::set_hook(Box::new(|_| {}));
         abortchild::main(args[2].parse().unwrap_or(99), args[3].parse().unwrap_or(1));
     }
+    if args.len() == 4 && args[1] == "allocfail" {
+        ctors::allocfail_main(args[2].parse().unwrap_or(99), args[3].parse().unwrap_or(1));
+    }
     if args.len() < 3 {
         eprintln!("usage: tvharness <stream> <casefile>");
         std::process::exit(2);
@@ -71,6 +75,7 @@ fn main() {
             "mech" => mech::run_case(&ops),
             "ptr" => ptrs::run_case(&ops),
             "cmp" => cmps::run_case(&ops),
+            "ctor" => ctors::run_case(&ops),
             _ => {
                 eprintln!("unknown stream {}", stream);
                 std::process::exit(2);
